@@ -645,3 +645,115 @@ def x_has(d, kind):
     if d[0] == "D":
         return any(x_has(c, kind) for _, c in d[2])
     return False
+
+
+# ===================================================================== constants regenerated from the live source
+class GenError(Exception):
+    pass
+
+
+OPCODE_NAMES = ["PROTO", "STOP", "NONE", "NEWTRUE", "NEWFALSE", "BININT1", "BININT2", "BININT", "LONG1", "LONG4", "BINFLOAT",
+                "BINUNICODE", "SHORT_BINBYTES", "BINBYTES", "EMPTY_TUPLE", "TUPLE1", "TUPLE2", "TUPLE3", "MARK", "TUPLE",
+                "EMPTY_LIST", "APPEND", "APPENDS", "EMPTY_DICT", "SETITEM", "SETITEMS", "BINPUT", "LONG_BINPUT", "BINGET",
+                "LONG_BINGET", "GLOBAL", "NEWOBJ", "BUILD"]
+
+
+def _bytes_def(name, b):
+    return "Definition %s : list Z := [%s]." % (name, "; ".join(str(x) for x in bytes(b)))
+
+
+def gen_constants(hashing_path, live):
+    """Gallina text of coq/Gen/C08_Constants.v: what Model/HashEnc*.v copies by hand from joblib/hashing.py (read
+    off the AST of the CURRENT source, fail-closed) and from the pickle module of the implementation interpreter
+    (`live`, printed by impl/c08_impl.py).  Proofs/HashEncGenTie.v proves the model's constants equal to these."""
+    import ast
+    src = open(hashing_path, encoding="utf-8").read()
+    tree = ast.parse(src)
+    classes = {n.name: n for n in tree.body if isinstance(n, ast.ClassDef)}
+    funcs = {n.name: n for n in tree.body if isinstance(n, ast.FunctionDef)}
+    for need in ("_ConsistentSet", "_ConsistentFrozenSet", "Hasher", "NumpyHasher"):
+        if need not in classes:
+            raise GenError("class %s not found in hashing.py" % need)
+    if "hash" not in funcs:
+        raise GenError("function hash not found")
+    # _ConsistentFrozenSet derives from _ConsistentSet
+    bases = [b.id for b in classes["_ConsistentFrozenSet"].bases if isinstance(b, ast.Name)]
+    if bases != ["_ConsistentSet"]:
+        raise GenError("_ConsistentFrozenSet bases: %r" % bases)
+    # the attribute assigned in _ConsistentSet.__init__
+    attrs = sorted({t.attr for n in ast.walk(classes["_ConsistentSet"]) if isinstance(n, ast.Assign)
+                    for t in n.targets if isinstance(t, ast.Attribute) and isinstance(t.value, ast.Name) and t.value.id == "self"})
+    if len(attrs) != 1:
+        raise GenError("_ConsistentSet assigns %r" % attrs)
+    hasher = classes["Hasher"]
+    meths = {n.name: n for n in hasher.body if isinstance(n, ast.FunctionDef)}
+    # protocol literal in Hasher.__init__
+    protos = [n.value.value for n in ast.walk(meths["__init__"]) if isinstance(n, ast.Assign)
+              and any(isinstance(t, ast.Name) and t.id == "protocol" for t in n.targets) and isinstance(n.value, ast.Constant)]
+    if len(protos) != 1:
+        raise GenError("protocol assignments: %r" % protos)
+    # memoize: isinstance(obj, (<types>)) -> return
+    skips = None
+    for n in ast.walk(meths["memoize"]):
+        if isinstance(n, ast.If) and isinstance(n.test, ast.Call) and getattr(n.test.func, "id", None) == "isinstance" \
+                and len(n.body) == 1 and isinstance(n.body[0], ast.Return):
+            a = n.test.args[1]
+            skips = sorted(e.id for e in (a.elts if isinstance(a, ast.Tuple) else [a]) if isinstance(e, ast.Name))
+    if skips is None:
+        raise GenError("memoize: isinstance guard not found")
+    # dispatch[...] = save_set / save_frozenset registrations in the class body
+    disp = []
+    for n in hasher.body:
+        if isinstance(n, ast.Assign) and isinstance(n.targets[0], ast.Subscript) and getattr(n.targets[0].value, "id", None) == "dispatch" \
+                and isinstance(n.value, ast.Name) and n.value.id in ("save_set", "save_frozenset"):
+            disp.append((ast.unparse(n.targets[0].slice), n.value.id))
+    # which wrapper class each save_* method instantiates
+    wraps = {}
+    for mname in ("save_set", "save_frozenset"):
+        if mname not in meths:
+            raise GenError("Hasher.%s missing" % mname)
+        calls = [c.func.id for c in ast.walk(meths[mname]) if isinstance(c, ast.Call) and isinstance(c.func, ast.Name)
+                 and c.func.id.startswith("_Consistent")]
+        if len(calls) != 1:
+            raise GenError("%s wraps %r" % (mname, calls))
+        wraps[mname] = calls[0]
+    # NumpyHasher tags
+    strs = [n.value for n in ast.walk(classes["NumpyHasher"]) if isinstance(n, ast.Constant) and isinstance(n.value, str)]
+    for tag in ("HASHED", "_HASHED_DTYPE"):
+        if tag not in strs:
+            raise GenError("NumpyHasher: constant %r not found" % tag)
+    # hash(): default and admissible algorithm names
+    hf = funcs["hash"]
+    defaults = {a.arg: d.value for a, d in zip(hf.args.args[-len(hf.args.defaults):], hf.args.defaults) if isinstance(d, ast.Constant)}
+    valid = [tuple(e.value for e in n.value.elts) for n in ast.walk(hf) if isinstance(n, ast.Assign)
+             and getattr(n.targets[0], "id", None) == "valid_hash_names" and isinstance(n.value, ast.Tuple)]
+    if defaults.get("hash_name") is None or len(valid) != 1:
+        raise GenError("hash(): defaults %r valid %r" % (defaults, valid))
+    ops = live.get("opcodes") or {}
+    missing = [o for o in OPCODE_NAMES if o not in ops]
+    if missing:
+        raise GenError("implementation interpreter did not report opcodes %r" % missing)
+    out = ["(* GENERATED by harness/gen_c08.py from %s and the pickle module of the implementation interpreter." % "joblib/hashing.py",
+           "   Do not edit: rewritten on every run of ./check C08. *)",
+           "From Coq Require Import ZArith List.", "Import ListNotations.", "Open Scope Z_scope.", ""]
+    for o in OPCODE_NAMES:
+        out.append("Definition g_%s : Z := %d." % (o, ops[o]))
+    out.append("Definition g_opcodes : list Z := [%s]." % "; ".join("g_" + o for o in OPCODE_NAMES))
+    out.append("Definition g_protocol : Z := %d." % protos[0])
+    out.append("Definition g_batchsize : Z := %d." % live["batchsize"])
+    mod = "joblib.hashing\n"
+    out.append(_bytes_def("g_set_global", (mod + wraps["save_set"] + "\n").encode()))
+    out.append(_bytes_def("g_fset_global", (mod + wraps["save_frozenset"] + "\n").encode()))
+    out.append(_bytes_def("g_live_set_global", live["set_name"].encode()))
+    out.append(_bytes_def("g_live_fset_global", live["fset_name"].encode()))
+    out.append(_bytes_def("g_sequence_attr", attrs[0].encode()))
+    out.append(_bytes_def("g_tag_hashed", b"HASHED"))
+    out.append(_bytes_def("g_tag_dtype", b"_HASHED_DTYPE"))
+    out.append("Definition g_memoize_skips : list (list Z) := [%s]." % "; ".join("[%s]" % "; ".join(str(x) for x in s.encode()) for s in skips))
+    out.append("Definition g_dispatch : list (list Z * list Z) := [%s]." % "; ".join(
+        "([%s], [%s])" % ("; ".join(str(x) for x in k.encode()), "; ".join(str(x) for x in v.encode())) for k, v in disp))
+    out.append(_bytes_def("g_default_hash_name", defaults["hash_name"].encode()))
+    out.append("Definition g_valid_hash_names : list (list Z) := [%s]." % "; ".join(
+        "[%s]" % "; ".join(str(x) for x in s.encode()) for s in valid[0]))
+    out.append("Definition g_pickler_is_pure_python : bool := %s." % ("true" if live.get("pickler_is_pure_python") else "false"))
+    return "\n".join(out) + "\n"
